@@ -371,11 +371,18 @@ func c04load(files map[string]string, main []string) (*types.Project, error) {
 	return p, err
 }
 
+// c04rename gives the service and the resources names containing dots (legal, and escaped inside tree paths).
+func c04rename(doc string) string {
+	r := strings.NewReplacer("\n    s:\n", "\n    web.api.v2:\n", "\n    n1:", "\n    net.one:", "\n    named:", "\n    vol.data.v1:", "\n    sec:", "\n    db.password:", "\n    cfg:", "\n    nginx.conf:",
+		"named:/", "vol.data.v1:/", "source: sec\n", "source: db.password\n", "source: cfg\n", "source: nginx.conf\n", "- sec\n", "- db.password\n")
+	return r.Replace(doc)
+}
+
 func (c04) Run(c *core.Ctx) {
 	table := c04table()
 	for _, a := range table {
 		for _, sp := range c04splits(a) {
-			for _, delivery := range []string{"files", "documents"} {
+			for _, delivery := range []string{"files", "documents", "files-dotted-names"} {
 				if c.Expired() {
 					return
 				}
@@ -385,9 +392,12 @@ func (c04) Run(c *core.Ctx) {
 					target := mapToYAML(c04doc(a.path, sp.target, true))
 					base := mapToYAML(c04doc(a.path, sp.base, sp.basePresent))
 					over := mapToYAML(c04over(a.path, sp.over))
+					if delivery == "files-dotted-names" {
+						target, base, over = c04rename(target), c04rename(base), c04rename(over)
+					}
 					var ps *types.Project
 					var errS error
-					if delivery == "files" {
+					if delivery != "documents" {
 						ps, errS = c04load(map[string]string{"base.yaml": base, "over.yaml": over}, []string{"base.yaml", "over.yaml"})
 					} else {
 						ps, errS = c04load(map[string]string{"base.yaml": base + "---\n" + over}, []string{"base.yaml"})
@@ -412,7 +422,7 @@ func (c04) Run(c *core.Ctx) {
 						return core.Outcome{Class: "diff", Sample: sample, Viol: &core.Violation{Key: "merge-differs:" + a.path + ":" + splitClass(sp.id),
 							Msg: fmt.Sprintf("%s: merging base and override does not give the model of the merged document: %s", id, trunc(d, 600))}}
 					}
-					return core.Outcome{Class: a.path + "/" + sp.id, Sample: sample}
+					return core.Outcome{Class: a.path + "/" + sp.id + "/" + delivery, Sample: sample}
 				})
 			}
 		}
